@@ -399,3 +399,31 @@ pub fn parse_rows(dflt: usize, lines: &[String]) -> Option<(Vec<String>, Vec<Tx>
     }
     Some((names, rows))
 }
+
+/// `app-replay`: re-runs one `app` case from its protocol lines (rows and opening positions; the
+/// rows are given as one file — the file boundaries of the original case are not part of the
+/// protocol).
+pub fn replay(lines: &[String], out: &mut String) -> bool {
+    let head: Vec<&str> = match lines.first() {
+        Some(l) => l.split_whitespace().collect(),
+        None => return false,
+    };
+    if head.len() < 3 || head[0] != "case" || head[2] != "app" {
+        return false;
+    }
+    let dflt: usize = head.iter().find_map(|t| t.strip_prefix("dflt=")).and_then(|v| v.parse().ok()).unwrap_or(0);
+    let Some((names, rows)) = parse_rows(dflt, &lines[1..]) else { return false };
+    let mut inits = Vec::new();
+    for l in &lines[1..] {
+        let t: Vec<&str> = l.split_whitespace().collect();
+        if t.len() == 3 && t[0] == "init" {
+            let sec: usize = match t[1].parse() { Ok(v) => v, Err(_) => return false };
+            let Some((sh, acb)) = t[2].split_once(':') else { return false };
+            let (Ok(sh), Ok(acb)) = (sh.parse::<Decimal>(), acb.parse::<Decimal>()) else { return false };
+            inits.push((if sec == 999 { "ZZZ".to_string() } else { format!("S{}", sec) }, sh, acb));
+        }
+    }
+    let c = AppCase { names, rows, inits, cuts: vec![] };
+    run_case(head[1], &c, out);
+    true
+}
